@@ -226,6 +226,40 @@ def collect_loop(fs, f, acc):
 
 
 
+def flag_tracks_list(fs, flag, lst, entry=None, depth=0) -> bool:
+    """flag and lst are the values after one loop (('loopvar', name, line) of the same loop) of a boolean and a list such that
+    flag == (len(lst) > 0) is an invariant: False / empty before the loop, and every way round the loop either leaves both alone or
+    appends to the list and raises the flag (also when that happens in a nested loop).  `entry` = (flag, lst) values required at loop
+    entry (default: False and the empty list)."""
+    from .facts import cases, simplify
+    flag, lst = _strip(flag), _strip(lst)
+    if not (flag[0] == "loopvar" and lst[0] == "loopvar" and flag[2] == lst[2]) or depth > 2:
+        return False
+    loop_ = next((l for l in fs.loops if getattr(l, "lineno", None) == flag[2]), None)
+    info_ = fs.loops.get(loop_) if loop_ is not None else None
+    if info_ is None:
+        return False
+    want = entry or (("const", False), ("list", ()))
+    if _strip(info_["entry"].env.get(flag[1], ("top",))) != want[0] or _strip(info_["entry"].env.get(lst[1], ("top",))) != want[1]:
+        return False
+
+    def paired(lv, fv, d=0):
+        lv, fv = _strip(lv), _strip(fv)
+        if lv[0] == "ite" and fv[0] == "ite" and lv[1] == fv[1] and d < 8:
+            return paired(lv[2], fv[2], d + 1) and paired(lv[3], fv[3], d + 1)       # merged after the same test
+        if lv[0] == "loopvar" and fv[0] == "loopvar" and lv[2] == fv[2] and lv[2] != flag[2]:
+            return flag_tracks_list(fs, fv, lv, entry=(flag, lst), depth=depth + 1)     # a nested loop doing the same
+        appended = lv[0] == "mut" and lv[1] == "append" and _strip(lv[2]) == lst
+        return (appended and fv == ("const", True)) or (lv == lst and fv == flag)
+    for st_ in info_["ends"] + info_["continues"] + [b for b in info_["breaks"] if hasattr(b, "env")]:
+        for case in (cases(st_.pc, cap=64) or [[]]):
+            fv_ = simplify(st_.env.get(flag[1], flag), case)
+            lv_ = simplify(st_.env.get(lst[1], lst), case)
+            if not paired(lv_, fv_):
+                return False
+    return True
+
+
 def flows_from(fs, f, t, pred, depth=0) -> bool:
     """Some sub-term of t satisfies pred - looking through lists collected by an unconditional accumulate loop."""
     from .terms import subterms
@@ -250,7 +284,7 @@ def ancestor_chains(prog: Program, root: FuncInfo, pred, depth=4):
                 par[c] = n
         return par
 
-    def up(fn, node, d):
+    def up(fn, node, d, nest=0):
         par = parents(fn)
         chain, n = [], node
         while n in par:
@@ -258,6 +292,20 @@ def ancestor_chains(prog: Program, root: FuncInfo, pred, depth=4):
             p = par[n]
             fld = next((f for f, v in ast.iter_fields(p) if v is n or (isinstance(v, list) and any(x is n for x in v))), None)
             chain.append((p, fld))
+            if isinstance(p, (ast.FunctionDef, ast.AsyncFunctionDef)) and p is not fn.node and nest < 3:
+                # a nested function: what encloses the call at run time is what encloses the places the function is called from
+                # (or handed to map() / filter(), which call it once per element)
+                inside = {id(x) for x in ast.walk(p)}
+                outs = []
+                for c in ast.walk(fn.node):
+                    if id(c) in inside or not isinstance(c, ast.Call):
+                        continue
+                    if isinstance(c.func, ast.Name) and c.func.id == p.name:
+                        outs += [chain + rest for rest in up(fn, c, d, nest + 1)]
+                    elif isinstance(c.func, ast.Name) and c.func.id in ("map", "filter") and c.args and isinstance(c.args[0], ast.Name) and c.args[0].id == p.name:
+                        outs += [chain + [(ast.GeneratorExp(elt=c, generators=[]), "elt")] + rest for rest in up(fn, c, d, nest + 1)]
+                if outs:
+                    return outs
             n = p
         if fn.qual == root.qual or d >= depth:
             return [chain]
